@@ -170,6 +170,20 @@ Proof.
       intros NR ext. simpl. rewrite E. apply K; assumption.
 Qed.
 
+Lemma framed_poisson_sum : forall k expl x, framed (poisson_sum N k expl x).
+Proof.
+  induction k as [|k IH]; intros; simpl.
+  - apply framed_ret.
+  - apply framed_bind; [apply framed_poisson_loop|intros]. apply IH.
+Qed.
+
+Lemma framed_draw_poisson : forall pv rate expl, framed (draw_poisson N pv rate expl).
+Proof.
+  intros. unfold draw_poisson.
+  destruct (pv || leb N rate (c500 N)); [apply framed_poisson_loop|].
+  repeat (apply framed_bind; [apply framed_lift|intros]). apply framed_poisson_sum.
+Qed.
+
 Lemma framed_next_gaussian : forall pv cache, framed (next_gaussian N pv cache).
 Proof.
   intros pv [g|]; simpl.
@@ -221,7 +235,7 @@ Proof.
   - apply framed_fv. apply framed_bind; [apply framed_draw_gamma|intros]. apply framed_lift.
   - apply framed_fv. apply framed_bind; [apply framed_draw_gamma|intros].
     apply framed_bind; [apply framed_draw_gamma|intros]. apply framed_lift.
-  - apply framed_iv. apply framed_poisson_loop.
+  - apply framed_iv. apply framed_draw_poisson.
   - apply framed_fv. apply framed_draw_triangular.
   - apply framed_fv. repeat framed_step.
   - apply framed_fv. apply framed_bind; [apply framed_nextp|intros]. repeat framed_step.
